@@ -2,7 +2,6 @@ package ext
 
 import (
 	"bytes"
-	"strconv"
 	"crypto/ecdsa"
 	"crypto/sha256"
 	"encoding/binary"
@@ -10,6 +9,7 @@ import (
 	"encoding/json"
 	"fmt"
 	"math/big"
+	"strconv"
 	"strings"
 
 	ethcrypto "github.com/ethereum/go-ethereum/crypto"
@@ -393,11 +393,11 @@ func parseUintStrict(s string) (uint64, error) {
 
 // MEvent is a numbered bridge event.
 type MEvent struct {
-	EventNonce uint64
-	Kind       BridgeEventKind
-	Tx         *MTx
-	Cmd        Command
-	BatchNonce uint64 // for MBatch: running count of bridge multisends (1-based)
+	EventNonce  uint64
+	Kind        BridgeEventKind
+	Tx          *MTx
+	Cmd         Command
+	BatchNonce  uint64 // for MBatch: running count of bridge multisends (1-based)
 	ValsetNonce uint64
 }
 
